@@ -40,4 +40,33 @@ CHECKS = {
                      'swept over every Unicode scalar value.',
                 note='Held on the renderings observed (payload-seeded documents, spec corpus x 8 option sets, generated and random inputs). The '
                      'grammar and the skeleton function are the trusted base.'),
+    'C04': dict(category='exploration', design_ref='DESIGN.md section 5, C04',
+                technique='relational monitor: canonical token trees of plain / quoted / list-indented parses of the same text compared',
+                text='Three executions of the real parser per case (plain, every line quoted, text indented under a list marker) are recorded and '
+                     'the wrapped tree must contain exactly the plain tree; ~30k (quick) / ~500k (thorough) embeddings over spec examples, '
+                     'mutations, generated and random inputs, markers "> ", ">", + - * N. N) with 1-9 digits and padding 1-4.',
+                note='Two mechanisms are listed as known findings (setext heading inside a block quote; non-ASCII whitespace treated as a space) and '
+                     'attributed only when the same law holds on the counterfactually neutralised witness. Held on what was observed.'),
+    'C05': dict(category='exploration', design_ref='DESIGN.md section 5, C05',
+                technique='relational monitor: trees with line numbers of Document(A), Document(B) and Document(A+blank+B) compared',
+                text='For every eligible pair the combined parse must equal A\'s blocks followed by B\'s blocks with shifted line numbers; pairs come '
+                     'from a systematic matrix of scratch-writing A x scratch-consuming B plus spec/mutated/generated/random documents; the '
+                     'parser scratch state is scrubbed before each parse so a leak between the two halves of one document cannot be masked.',
+                note='Side conditions are over-approximated (any "]:" excludes the pair). Held on the pairs observed.'),
+    'C12': dict(category='exploration', design_ref='DESIGN.md section 5, C12',
+                technique='invariant at a hook: icontract class invariant on block_token.Document walking the finished tree; differential check of utils.traverse and AstRenderer against own walkers',
+                text='An icontract invariant installed on the real Document class runs at the quiescent point right after construction and checks '
+                     'sharing/cycles, parent links, child kinds, heading levels and list start on every tree parsed under five token sets; '
+                     'traverse() (plain, klass, depth) and the AstRenderer JSON are compared with independent walkers of the same tree.',
+                note='Child kinds are taken from the class docstrings; Table.header is checked as a row without demanding a parent link.'),
+    'C15': dict(category='exploration', design_ref='DESIGN.md section 5, C15',
+                technique='relational monitor over supply forms, including the real CLI in subprocesses with ResourceWarning as error',
+                text='The output of markdown(str) is compared with list / iterator / StringIO / real file object / final-newline variants and with '
+                     '`python -m mistletoe -r R file...` (one and several files, repeated names) for five renderers.',
+                note='Inputs are restricted to \\n line ends (the property\'s domain). Held on the executions observed.'),
+    'C18': dict(category='exploration', design_ref='DESIGN.md section 5, C18',
+                technique='differential monitor: contrib renderer output vs HtmlRenderer output on extension-free documents',
+                text='Byte-for-byte comparison of Toc, GithubWiki, MathJax (script line removed) and Pygments renderers with HtmlRenderer under all 8 '
+                     'HTML option sets on spec, mutated, generated and random documents that meet each renderer\'s side condition.',
+                note='Side conditions are over-approximated ("[[" / "$" anywhere in the text, any code block token).'),
 }
